@@ -62,15 +62,15 @@ Qed.
 
 (* the facts, each closed and computable, that put a user function's code at its entry point: s0 is the
    compile state in which its body was compiled, flb the flags *)
-Definition ufun_facts (v : vm) (body : node) (f : value) (s0 : cstate) (flb : flags) : Prop :=
+Definition ufun_facts (a : Z) (v : vm) (body : node) (f : value) (s0 : cstate) (flb : flags) : Prop :=
   exists morph fid fr wb s1,
-    f = VFun morph fid /\ fn_params morph = 1 /\ fn_locals morph = 1 /\ assoc_get (v_frames v) fid = Some fr /\
+    f = VFun morph fid /\ fn_params morph = a /\ fn_locals morph = a /\ assoc_get (v_frames v) fid = Some fr /\
     ncs s0 = zlen (rcs s0) /\ nds s0 = zlen (rds s0) /\ ncs s0 = fn_node morph /\
     comp body 0 flb s0 = COk (wb, s1) /\ OpDepth flb = 0 /\ Discard flb = false /\ AcceptTemp flb = false /\
     code_at_b v (ncs s0) (rev (firstn (List.length (rcs s1) - List.length (rcs s0)) (rcs s1)) ++ [Z.lor (New RET) wb]) = true /\
     firstn (List.length (rds s1)) (v_ds v) = rev (rds s1).
 
-Lemma ufun_facts_sound v body f s0 flb : ufun_facts v body f s0 flb -> is_ufun v body f.
+Lemma ufun_facts_sound a v body f s0 flb : ufun_facts a v body f s0 flb -> is_ufun a v body f.
 Proof.
   intros (morph & fid & fr & wb & s1 & F1 & F2 & F3 & F4 & F5 & F6 & F7 & F8 & F9 & F10 & F11 & F12 & F13).
   exists morph, fid, fr, s0, s1, wb, flb.
